@@ -96,14 +96,48 @@ pub enum TextCase {
     /// a run time error raised inside the extent of dynamic-wind / parameterize /
     /// with-output-to-string (possibly a few calls deep): the unwinding must restore the state
     Unwind { text: String },
+    /// a program that fails part way through - definitions before the failing form were evaluated, those after
+    /// it only compiled - followed by a second evaluation that reads, assigns, calls or redefines those names
+    Partial { text: String, follow: String },
 }
 
 impl TextCase {
     fn text(&self) -> &str {
         match self {
-            TextCase::Mutated { text } | TextCase::Soup { text } | TextCase::Unicode { text } | TextCase::Unwind { text } => text,
+            TextCase::Mutated { text } | TextCase::Soup { text } | TextCase::Unicode { text } | TextCase::Unwind { text } | TextCase::Partial { text, .. } => text,
         }
     }
+    fn follow(&self) -> Option<&str> {
+        match self {
+            TextCase::Partial { follow, .. } => Some(follow),
+            _ => None,
+        }
+    }
+}
+
+fn partial_text(first: u8, fail: u8, follow: u8) -> TextCase {
+    let f = FAILING[fail as usize % FAILING.len()];
+    let text = match first % 7 {
+        0 => format!("(define pa 1) {} (define pb 2)", f),
+        1 => format!("(define pa 1) (define (pf) (+ pb 1)) {} (define pb 2)", f),
+        2 => format!("(define pa 1) (define pb {}) (define pc 3)", f),
+        3 => format!("(define pz (box 5)) (define pa 1) {} (define pb (lambda () pa))", f),
+        4 => "(define pa 1) (this-name-is-free) (define pb 2)".to_string(),
+        // a redefinition of something the probe uses, in a program that is rejected at compile time: no effect
+        5 => "(define probe-box (box 7)) (this-name-is-free)".to_string(),
+        _ => "(define (probe-counter) 0) (define pa 1) (this-name-is-free 1 2)".to_string(),
+    };
+    let follow = match follow % 8 {
+        0 => "(set! pb 3)",
+        1 => "pb",
+        2 => "(define (use) pb) (use)",
+        3 => "(set! pa 5) (list pa)",
+        4 => "(define pb 9) (list pa pb)",
+        5 => "(pf)",
+        6 => "(set! pc (list pb pa))",
+        _ => "(begin (set! pb (lambda () 1)) (pb))",
+    };
+    TextCase::Partial { text, follow: follow.to_string() }
 }
 
 const FAILING: &[&str] = &["(car 5)", "(error \"boom\")", "(vector-ref (vector) 1)", "(raise 'boom)", "(+ 1 \"a\")", "(hash-ref (hash) 'k)", "(list-ref (list 1) 3)", "((lambda (x) x))", "(string-ref \"\" 0)", "(exact->inexact 'a)"];
@@ -117,13 +151,21 @@ fn unwind_text(wrapper: u8, fail: u8, depth: u8, caught: bool) -> String {
             _ => format!("((lambda (k) (list k {})) 0)", e),
         };
     }
-    let w = match wrapper % 5 {
+    // handlers that are not a one-argument procedure: the error path itself must stay an ordinary error
+    let handler = ["5", "(lambda () 0)", "(lambda (a b) (list a b))", "(lambda args 0)", "car", "(lambda (err) (car err))", "'sym", "(lambda (a b c) a)"][(fail as usize / FAILING.len()) % 8];
+    let w = match wrapper % 9 {
+        5 => format!("(call-with-exception-handler {} (lambda () {}))", handler, e),
+        6 => format!("(with-handler {} {})", handler, e),
+        7 => format!("(+ 1 (length (transduce (list 1 2) (mapping (lambda (x) {})) (into-list))))", e),
+        8 => format!("(foldl (lambda (x acc) (+ acc (car (map (lambda (y) {}) (list x))))) 0 (list 1 2))", e),
         0 => format!("(dynamic-wind (lambda () (set-box! probe-winds (+ (unbox probe-winds) 1))) (lambda () {}) (lambda () (set-box! probe-winds (- (unbox probe-winds) 1))))", e),
         1 => format!("(parameterize ((probe-param 2)) {})", e),
         2 => format!("(with-output-to-string (lambda () (display \"in\") {}))", e),
         3 => format!("(parameterize ((probe-param 3)) (dynamic-wind (lambda () (set-box! probe-winds (+ (unbox probe-winds) 1))) (lambda () (with-output-to-string (lambda () {}))) (lambda () (set-box! probe-winds (- (unbox probe-winds) 1)))))", e),
         _ => format!("(dynamic-wind (lambda () (set-box! probe-winds (+ (unbox probe-winds) 1))) (lambda () (dynamic-wind (lambda () (set-box! probe-winds (+ (unbox probe-winds) 10))) (lambda () {}) (lambda () (set-box! probe-winds (- (unbox probe-winds) 10))))) (lambda () (set-box! probe-winds (- (unbox probe-winds) 1))))", e),
     };
+    // sometimes inside a call whose arguments are live locals on the operand stack
+    let w = if (depth / 4) % 2 == 1 { format!("((lambda (p q) (+ 1 {} p q)) 10 20)", w) } else { w };
     if caught {
         format!("(with-handler (lambda (err) 'caught) {})", w)
     } else {
@@ -229,23 +271,32 @@ fn text_case() -> impl Strategy<Value = TextCase> {
     });
     let unicode = ".{0,60}".prop_map(|s| TextCase::Unicode { text: s });
     let unwind = (any::<u8>(), any::<u8>(), any::<u8>(), any::<bool>()).prop_map(|(w, f, d, c)| TextCase::Unwind { text: unwind_text(w, f, d, c) });
-    prop_oneof![6 => mutated, 3 => soup, 1 => unicode, 2 => unwind]
+    let partial = (any::<u8>(), any::<u8>(), any::<u8>()).prop_map(|(a, b, c)| partial_text(a, b, c));
+    prop_oneof![6 => mutated, 3 => soup, 1 => unicode, 2 => unwind, 1 => partial]
 }
 
 fn check_text(ctx: &Ctx, ws: &mut Workers, c: &TextCase, counting: bool) -> PropResult {
     for cfg in [Config::default_cfg(), Config::jit_off()] {
-        let steps = vec![
+        let mut steps = vec![
             Step::Eval { src: PRELUDE.to_string() },
             // divergent mutants are stopped by the step-count interrupt
             Step::EvalInterrupt { src: c.text().to_string(), after_steps: 3_000_000 },
-            Step::Eval { src: PROBE.to_string() },
         ];
+        if let Some(f) = c.follow() {
+            steps.push(Step::Eval { src: f.to_string() });
+        }
+        steps.push(Step::Eval { src: PROBE.to_string() });
+        let inputs = steps.len() - 2;
+        let shown = match c.follow() {
+            Some(f) => format!("{}\n;; next evaluation\n{}", c.text(), f),
+            None => c.text().to_string(),
+        };
         let mut case = Case::new(steps);
         case.timeout_ms = 30_000;
         case.continue_after_panic = false;
         let r = ws.run(&cfg, &case);
         ctx.stats.engine_runs.fetch_add(1, std::sync::atomic::Ordering::Relaxed);
-        match judge_usable("c07a", &r, 1, c.text(), &cfg) {
+        match judge_usable("c07a", &r, inputs, &shown, &cfg) {
             Ok(true) => {
                 if counting && cfg.0.is_empty() {
                     let st = &r.steps[1];
